@@ -275,6 +275,7 @@ func c07(r *core.Run) {
 	r.Rule("P1", "funnels: Conn.Publish is invoked only from the two reply funnels and the two event funnels (subject = own parameter); PublishRequest is not used by the service", 4)
 	r.Rule("P2", "subject templates: every subject handed to an event funnel is system.reset, system.tokenReset, conn.<V>.token, event.<R>.<E> or the request's reply subject, where R is the routed resource name, E a valid constant token or a parameter validated by isValidPart, V validated by isValidPart (the request's own cid exempt); the token validator rejects empty, <33, >126, '.', '*', '>', '?'", 16)
 	r.Rule("P3", "envelopes: every struct marshalled on a reply path has exactly one of result/resource/error (no omitempty) plus optional meta,omitempty; Error has string code and message; every static payload literal parses as JSON with exactly one of those keys, and error literals carry a declared Code* constant", 14)
+	r.Rule("P8", "payload provenance: every payload handed to a reply funnel is a package-level literal (checked by P3) or the output of json.Marshal on its err==nil edge (P5); no reply is assembled by string concatenation around handler-supplied text, which would bypass JSON escaping", 8)
 	r.Rule("P4", "meta only for HTTP: status/header are written only by the two setters, behind the !isHTTP->panic and replied->panic guards; metaObject is built only by meta(), which returns nil when nothing is set; envelope Meta fields are fed only from meta() (or nil)", 6)
 	r.Rule("P5", "marshal fallback: a json.Marshal result is published only on its err==nil edge; the error edge substitutes an error reply; where that reply is built with ToError, ToError maps by a plain type assertion (no unwrapping), so a marshal failure is always system.internalError", 4)
 	r.Rule("P6", "pre-response: both Timeout methods reject negative durations by panic before publishing and publish exactly timeout:\"<decimal ms>\" on the reply subject", 2)
@@ -612,6 +613,45 @@ func c07(r *core.Run) {
 	}
 	if usesToError {
 		toErrorRule(r, "P5")
+	}
+
+	// ---- P8 ----------------------------------------------------------------
+	for fn := range funnelFns {
+		pi := -1
+		for i, prm := range fn.Params {
+			if isByteSlice(prm.Type()) {
+				pi = i
+			}
+		}
+		if pi < 0 {
+			continue
+		}
+		for _, c := range callsTo(root, fn) {
+			if pi >= len(c.Common().Args) {
+				continue
+			}
+			bad := ""
+			n := 0
+			for _, av := range paramArgs(p, c.Common().Args[pi], 0) {
+				for _, lf := range valueLeaves(av, nil, 0) {
+					n++
+					v := core.Strip(lf.V)
+					if _, ok := loadedGlobal(v); ok {
+						continue
+					}
+					if ex, ok := v.(*ssa.Extract); ok && ex.Index == 0 {
+						if mc, ok := ex.Tuple.(*ssa.Call); ok && mc.Common().StaticCallee() != nil && mc.Common().StaticCallee().String() == "encoding/json.Marshal" {
+							continue
+						}
+					}
+					if _, isPrm := v.(*ssa.Parameter); isPrm {
+						continue // forwarded by a function with no static caller here; its callers are judged at their own sites
+					}
+					bad = valDesc(lf.V)
+				}
+			}
+			r.Check(bad == "" && n > 0, "P8", core.FuncName(c.Parent()), "reply-payload<-literal-or-json.Marshal", p.InstrPos(c), "the payload is a package-level literal or the encoder's output", "a reply payload is assembled by hand ("+bad+"): text supplied by the handler is not JSON-escaped, so the response can be malformed or carry different data")
+		}
 	}
 
 	// ---- P6 ----------------------------------------------------------------
